@@ -17,6 +17,11 @@ func checkC14(c *Ctx) {
 	c.Decides("ORDER/LF: ToDistanceMatrix sorts tips by name before numbering them and fills row i from tip i starting at 0; AvgDistanceMatrix adds entry (i,j) of each further matrix to entry (i,j), counts every tree once and divides every entry by the count")
 	c.Decides("SIBLING/SYM: both flood-fill sites cross a branch under the same relation Length() < threshold; a kept branch is explored from both ends and a removed branch yields a singleton group for each end that is a tip")
 	c.DoesNotDecide("the sums along paths as such, symmetry of the matrix, exactness of the connected components (flood-fill reachability)")
+	c.Decides("NO-BREAK: no loop of CutEdgesMaxLength (the loop over the branches that start the flood fills) is left by a break: every branch is examined, so every tip ends in a group")
+	if fi := c.Func("tree", "Tree", "CutEdgesMaxLength"); fi != nil {
+		c.noBreakLoops("NO-BREAK", fi, "partitions the tips exactly into the groups connected by branches shorter than the threshold", "starts a flood fill from every branch")
+	}
+	c.Floor("NO-BREAK", 1)
 	c.pathLengthsTable()
 	c.distanceMatrixOrder()
 	c.avgMatrix()
